@@ -338,7 +338,12 @@ namespace occa {
       return kernelHash;
     }
 
-    hash_t newKernelHash = kernelHash;
+    // The kernel built against the current dependencies is cached under the
+    // hash of this hash followed by each dependency and the hash of its current
+    // contents. The hashes must not be XOR-ed into kernelHash: equal hashes
+    // cancel out and one step can undo the previous one (unchanged dependencies
+    // are mixed in as well), either way this function never returned
+    std::string newKernelKey = kernelHash.getFullString();
     bool foundDependencyChanges = false;
 
     jsonObject dependencyHashes = dependenciesJson.object();
@@ -347,10 +352,14 @@ namespace occa {
       const std::string &dependency = it->first;
       const hash_t dependencyHash = hash_t::fromString(it->second);
 
+      newKernelKey += '\n';
+      newKernelKey += dependency;
+      newKernelKey += '\n';
+
       if (io::exists(dependency)) {
         // Check whether the dependency changed
         hash_t newDependencyHash = hashFile(dependency);
-        newKernelHash ^= newDependencyHash;
+        newKernelKey += newDependencyHash.getFullString();
 
         if (dependencyHash != newDependencyHash) {
           foundDependencyChanges = true;
@@ -365,7 +374,7 @@ namespace occa {
 
     if (foundDependencyChanges) {
       // Recursively check if new kernels had their dependencies changed
-      return applyDependencyHash(newKernelHash);
+      return applyDependencyHash(occa::hash(newKernelKey));
     }
     return kernelHash;
   }
